@@ -367,6 +367,23 @@ PROPS = {
         level_text="Generated round-trip and differential search for every exported function in both Z configurations, with exact-length buffers under ASan. Exploration only.",
         level_note="trusts the decoder in cexport.hpp (written from the layout comment), ASan, clang, rapidcheck",
     ),
+    "C19": dict(
+        bins={"main": dict(tc="gcc", src="prop_C19.cpp", variants=["plain"])},
+        parts=[dict(name="mink", workers={Q: 16, T: 16}, cases={Q: 2500, T: 100000})],
+        rule=("cases = pattern and path of 1-8 random vertices each (non-convex and self-intersecting included), |coord| from "
+              "50 to 2^39 (sums reach 2^40), closed and open path, MinkowskiSum and MinkowskiDiff. Reference: the "
+              "parallelograms a_g+-b_h, a_i+-b_h, a_i+-b_j, a_g+-b_j for every path edge (closing edge only when closed) and "
+              "every pattern edge, built in the harness from the definition; one integer sample per face of the arrangement of "
+              "all parallelogram edges, farther than 2 units (+ float allowance) from every edge: the result must wind once "
+              "around a sample that lies strictly inside some non-degenerate parallelogram (exact __int128 test) and not at all "
+              "otherwise; empty operand or no non-degenerate parallelogram => empty result. Non-trivial = overlapping "
+              "parallelograms and a non-convex or self-intersecting operand. (The PathD overloads are compared with the "
+              "integer ones in C16.)"),
+        assumptions=["a mismatch that disappears when single path vertices are moved by one unit (>= 3 judged moves, at most half still failing) is the near-touch artefact KF-ENG-a of the final Union"],
+        technique="property-based testing (rapidcheck): reference construction of the swept parallelograms + exact sampled coverage",
+        level_text="Generated search against the definition (union of parallelograms) with exact point-in-parallelogram tests. Exploration only.",
+        level_note="trusts oracle.hpp and the parallelogram construction in prop_C19.cpp, g++, rapidcheck",
+    ),
     "C02": dict(
         bins={"main": dict(tc="gcc", src="prop_C02.cpp", variants=["plain"])},
         parts=[
